@@ -150,6 +150,10 @@ class _OperatorDelimiter:
                 parent_precedence = astor.op_util.get_op_precedence(parent_node.op)
                 if isinstance(parent_node.op, ast.Pow) or isinstance(parent_node, ast.BoolOp):
                     parent_precedence+=1
+                elif isinstance(parent_node, ast.BinOp) and node is parent_node.right:
+                    # Binary operators are left-associative: a right operand
+                    # of the same precedence must keep its parenthesis.
+                    parent_precedence+=1
             else:
                 parent_precedence = colorizer.explicit_precedence.get(
                     node, astor.op_util.Precedence.highest)
